@@ -78,6 +78,16 @@ Theorem C03_compression_fixed : forall sp c fr h es, apply_preset sp c fr = Ok (
 Proof. exact compression_not_copied. Qed.
 Print Assumptions C03_compression_fixed.
 
+(* The hello is a function of the spec, the SNI host and OmitEmptyPsk only: whatever the caller put into
+   Config.MinVersion / MaxVersion / NextProtos (fields of cfg the model carries but never reads, because
+   SetTLSVers overwrites the version range and the ALPN extension overwrites NextProtos), ApplyPreset gives the
+   same header and extension values. The correspondence runs vary exactly these fields (CBuild: real bytes =
+   build, which ignores them). *)
+Theorem C03_config_independent : forall sp c c' fr,
+  c_sni c = c_sni c' -> c_omit_psk c = c_omit_psk c' -> apply_preset sp c fr = apply_preset sp c' fr.
+Proof. exact apply_preset_cfg. Qed.
+Print Assumptions C03_config_independent.
+
 (* ---- the regenerated table ---- *)
 Theorem C03_table_wf : forallb wf_parrot Parrots.all = true.
 Proof. vm_compute. reflexivity. Qed.
@@ -110,7 +120,8 @@ Qed.
 Print Assumptions C03_parrots.
 
 (* ---- the hypotheses are satisfiable; concrete instances ---- *)
-Definition ex_cfg : cfg := {| c_sni := [97; 46; 105; 111]; c_omit_psk := true |}.
+Definition ex_cfg : cfg := {| c_sni := [97; 46; 105; 111]; c_omit_psk := true;
+                              c_min_version := 0; c_max_version := 769; c_next_protos := [[104; 50]] |}.
 Definition ex_ech : ech_draw :=
   {| ed_cfg_idx := 0; ed_cfg_byte := 7; ed_suite_idx := 1; ed_enc := repeat 9 32;
      ed_plen_idx := 2; ed_payload := repeat 5 208 |}.
